@@ -1,4 +1,6 @@
 import CodeLimit.Lemmas.FindAll
+import CodeLimit.Lemmas.FindAllLang
+import CodeLimit.Gen.Languages
 /-!
 # C14 - `find_all` reports greedy, ordered, non-overlapping matches
 
@@ -184,5 +186,223 @@ example :
     sound U_nn U_deadStuck U_two, longest U_nn U_deadStuck U_two, greedy U_nn U_deadStuck U_two,
     ordered_disjoint U_nn U_deadStuck U_two, completeness_partial U_nn U_deadStuck U_two,
     ⟨by decide, by decide, 4, by decide, by decide, .inr (.inl (by decide))⟩⟩
+
+/-! ## 10. `find_all` on a compiled pattern, in terms of the pattern's language
+
+The items 1-6 for `findAllId r base ord w` (`matcher.find_all` on a pattern with `Identity`
+atoms), for every pattern `r` that cannot match the empty sequence (`hnn : ¬ Lang r []`), every
+value `base` of the global id counter, every set-iteration order `ord` and every input `w`.
+"The machine accepts / cannot continue" is replaced by statements about the regular language
+`Lang r` of the pattern (`CodeLimit/Spec/Regex.lean`). `GreedyLang r w p f`
+(`CodeLimit/Lemmas/FindAllLang.lean`): `p < f ≤ |w|`, `w[p..f)` is a word of `Lang r`, and no
+longer slice `w[p..e')` is a prefix of any word of `Lang r` - i.e. the table-driven run from `p`
+survives exactly up to `f` and is accepting there. -/
+
+section pattern
+variable {α : Type} [DecidableEq α] {r : Rx α} {base : Nat} {ord : List α → List α}
+  {w : List α} {ms : List (Match α)}
+
+/-- 8'. `find_all` on a compiled pattern never raises and never runs out of fuel: the subset
+construction terminates and every row of the table has pairwise distinct labels, so
+`Pattern.consume` never sees two accepting transitions. (No assumption on `r`.) -/
+theorem findAllId_total (r : Rx α) (base : Nat) (hord : IsOrder ord) (w : List α) :
+    ∃ ms, findAllId r base ord w = .ok ms :=
+  findAllId_ok r base hord w
+
+/-- for the machine of a compiled pattern the machine-level notion of a greedy match is the
+language-level one -/
+theorem greedyAt_iff_greedyLang {D : Dfa α} (hord : IsOrder ord)
+    (hD : nfaToDfa (compile r base) ord = some D) (w : List α) (p f : Nat) :
+    GreedyAt (dfaMachine D idAcceptor) w p f ↔ GreedyLang r w p f :=
+  CL.greedyAt_iff_greedyLang hord hD w p f
+
+/-- 3 + 4 (language form). every reported match is a greedy match of the pattern's language -/
+theorem findAllId_greedy (hnn : ¬ Lang r []) (hord : IsOrder ord)
+    (h : findAllId r base ord w = .ok ms) : ∀ m ∈ ms, GreedyLang r w m.s m.e := by
+  obtain ⟨D, hD, heq⟩ := findAllId_eq r base hord w
+  rw [heq] at h
+  intro m hm
+  exact (CL.greedyAt_iff_greedyLang hord hD w m.s m.e).1
+    (greedy_dfa D idAcceptor (isAcc_start_false hord hD hnn) h m hm)
+
+/-- 1. every reported match is non-empty and inside the input -/
+theorem findAllId_bounds (hnn : ¬ Lang r []) (hord : IsOrder ord)
+    (h : findAllId r base ord w = .ok ms) : ∀ m ∈ ms, m.s < m.e ∧ m.e ≤ w.length :=
+  fun m hm => ⟨(findAllId_greedy hnn hord h m hm).1, (findAllId_greedy hnn hord h m hm).2.1⟩
+
+/-- 2. the recorded tokens are exactly the matched items -/
+theorem findAllId_records (hnn : ¬ Lang r []) (hord : IsOrder ord)
+    (h : findAllId r base ord w = .ok ms) : ∀ m ∈ ms, m.toks = slice w m.s m.e := by
+  obtain ⟨D, hD, heq⟩ := findAllId_eq r base hord w
+  rw [heq] at h
+  exact records (isAcc_start_false hord hD hnn) (dfaMachine_deadStuck D idAcceptor) h
+
+/-- 3. every reported match is a word of the pattern's language -/
+theorem findAllId_sound (hnn : ¬ Lang r []) (hord : IsOrder ord)
+    (h : findAllId r base ord w = .ok ms) : ∀ m ∈ ms, Lang r (slice w m.s m.e) :=
+  fun m hm => (findAllId_greedy hnn hord h m hm).2.2.1
+
+/-- 4 (strong form). no longer slice from the same start is even a prefix of a word of the
+language -/
+theorem findAllId_longest_prefix (hnn : ¬ Lang r []) (hord : IsOrder ord)
+    (h : findAllId r base ord w = .ok ms) :
+    ∀ m ∈ ms, ∀ e', m.e < e' → e' ≤ w.length → ¬ ∃ v, Lang r (slice w m.s e' ++ v) :=
+  fun m hm => (findAllId_greedy hnn hord h m hm).2.2.2
+
+/-- 4. every reported match is the longest word of the language from its start: no longer
+slice from the same start belongs to the language -/
+theorem findAllId_longest (hnn : ¬ Lang r []) (hord : IsOrder ord)
+    (h : findAllId r base ord w = .ok ms) :
+    ∀ m ∈ ms, ∀ e', m.e < e' → e' ≤ w.length → ¬ Lang r (slice w m.s e') := by
+  intro m hm e' h1 h2 hl
+  exact findAllId_longest_prefix hnn hord h m hm e' h1 h2 ⟨[], by simpa using hl⟩
+
+/-- 5. matches are reported in position order and do not overlap -/
+theorem findAllId_ordered_disjoint (hnn : ¬ Lang r []) (hord : IsOrder ord)
+    (h : findAllId r base ord w = .ok ms) : ms.Pairwise (fun m m' => m.e ≤ m'.s) := by
+  obtain ⟨D, hD, heq⟩ := findAllId_eq r base hord w
+  rw [heq] at h
+  exact ordered_disjoint (isAcc_start_false hord hD hnn) (dfaMachine_deadStuck D idAcceptor) h
+
+/-- 6 (strongest form, language terms). a position `p` from which greedy matching succeeds with
+finish `f` is covered by a reported match that finishes no later than `f`, or was pre-empted by
+a reported match that starts after `p` and finishes strictly before `f` -/
+theorem findAllId_completeness_partial_strong (hnn : ¬ Lang r []) (hord : IsOrder ord)
+    (h : findAllId r base ord w = .ok ms) :
+    ∀ p f, GreedyLang r w p f →
+      (∃ m ∈ ms, m.s ≤ p ∧ p < m.e ∧ m.e ≤ f) ∨ (∃ m ∈ ms, p < m.s ∧ m.e < f) := by
+  obtain ⟨D, hD, heq⟩ := findAllId_eq r base hord w
+  rw [heq] at h
+  intro p f hg
+  exact completeness_partial_strong (isAcc_start_false hord hD hnn)
+    (dfaMachine_deadStuck D idAcceptor) h p f ((CL.greedyAt_iff_greedyLang hord hD w p f).2 hg)
+
+/-- 6 (language terms; partial - the full clause "every such position is covered" is refuted
+by `findAllId_completeness_full_fails`). every position from which greedy matching succeeds is
+covered by a reported match, or was pre-empted by a reported match that starts later and
+finishes no later -/
+theorem findAllId_completeness_partial (hnn : ¬ Lang r []) (hord : IsOrder ord)
+    (h : findAllId r base ord w = .ok ms) :
+    ∀ p f, GreedyLang r w p f →
+      (∃ m ∈ ms, m.s ≤ p ∧ p < m.e) ∨ (∃ m ∈ ms, p < m.s ∧ m.e ≤ f) := by
+  intro p f hg
+  rcases findAllId_completeness_partial_strong hnn hord h p f hg with
+    ⟨m, hm, h1, h2, _⟩ | ⟨m, hm, h1, h2⟩
+  · exact .inl ⟨m, hm, h1, h2⟩
+  · exact .inr ⟨m, hm, h1, Nat.le_of_lt h2⟩
+
+end pattern
+
+/-! ### the full completeness clause fails on a real compiled pattern (KF1) -/
+
+/-- `Union([a, b, c, d], [b, c])` with `a b c d = 0 1 2 3` -/
+def Uabcd : Rx Nat :=
+  .alt (.cat (.cat (.cat (.atom 0) (.atom 1)) (.atom 2)) (.atom 3)) (.cat (.atom 1) (.atom 2))
+
+theorem Uabcd_nn : ¬ Lang Uabcd [] := by
+  rw [← langB_iff]; decide +kernel
+
+theorem Uabcd_abcdx : findAllId Uabcd 0 id [0, 1, 2, 3, 9] = .ok [⟨1, 3, [1, 2]⟩] := by
+  decide +kernel
+
+theorem Uabcd_greedy_0_4 : GreedyLang Uabcd [0, 1, 2, 3, 9] 0 4 := by
+  refine ⟨by decide, by decide, (langB_iff _ _).1 (by decide +kernel), ?_⟩
+  intro e' h1 h2
+  have : e' = 5 := by simp only [List.length_cons, List.length_nil] at h2; omega
+  subst this
+  rw [← viableB_iff]
+  decide +kernel
+
+/-- the compiled pattern `Union([a, b, c, d], [b, c])` on `a b c d x` reports only `b c` =
+(1, 3) although `a b c d` is a greedy match of the language from position 0: position 0 is not
+covered by any reported match -/
+theorem findAllId_completeness_full_fails :
+    ∃ (r : Rx Nat) (w : List Nat) (ms : List (Match Nat)) (p f : Nat),
+      ¬ Lang r [] ∧ findAllId r 0 id w = .ok ms ∧ GreedyLang r w p f ∧
+      ¬ ∃ m ∈ ms, m.s ≤ p ∧ p < m.e :=
+  ⟨Uabcd, [0, 1, 2, 3, 9], [⟨1, 3, [1, 2]⟩], 0, 4, Uabcd_nn, Uabcd_abcdx, Uabcd_greedy_0_4,
+    by simp⟩
+
+/-- the hypothesis `¬ Lang r []` is needed: a pattern that can match the empty sequence
+reports empty matches -/
+theorem nullable_reports_empty :
+    findAllId (.opt (.atom 1)) 0 id [2] = .ok [⟨0, 0, []⟩] := by decide +kernel
+
+/-! ### non-vacuity of section 10 -/
+
+theorem Uabcd_two :
+    findAllId Uabcd 7 List.reverse [0, 1, 2, 3, 9, 1, 2]
+      = .ok [⟨1, 3, [1, 2]⟩, ⟨5, 7, [1, 2]⟩] := by decide +kernel
+
+/-- the language-level items instantiated on `a b c d x b c` (id base 7, reversed set order):
+two matches, the second one committed by the loop after the end of the input; position 0 has a
+greedy match (`a b c d`) and is pre-empted -/
+example :
+    let w := [0, 1, 2, 3, 9, 1, 2]
+    let ms : List (Match Nat) := [⟨1, 3, [1, 2]⟩, ⟨5, 7, [1, 2]⟩]
+    findAllId Uabcd 7 List.reverse w = .ok ms ∧ 2 ≤ ms.length ∧
+    (∀ m ∈ ms, m.s < m.e ∧ m.e ≤ w.length) ∧
+    (∀ m ∈ ms, m.toks = slice w m.s m.e) ∧
+    (∀ m ∈ ms, Lang Uabcd (slice w m.s m.e)) ∧
+    (∀ m ∈ ms, ∀ e', m.e < e' → e' ≤ w.length → ¬ Lang Uabcd (slice w m.s e')) ∧
+    ms.Pairwise (fun m m' => m.e ≤ m'.s) ∧
+    (∀ p f, GreedyLang Uabcd w p f →
+      (∃ m ∈ ms, m.s ≤ p ∧ p < m.e) ∨ (∃ m ∈ ms, p < m.s ∧ m.e ≤ f)) ∧
+    GreedyLang Uabcd w 0 4 :=
+  ⟨Uabcd_two, by decide, findAllId_bounds Uabcd_nn isOrder_reverse Uabcd_two,
+    findAllId_records Uabcd_nn isOrder_reverse Uabcd_two,
+    findAllId_sound Uabcd_nn isOrder_reverse Uabcd_two,
+    findAllId_longest Uabcd_nn isOrder_reverse Uabcd_two,
+    findAllId_ordered_disjoint Uabcd_nn isOrder_reverse Uabcd_two,
+    findAllId_completeness_partial Uabcd_nn isOrder_reverse Uabcd_two,
+    ⟨by decide, by decide, (langB_iff _ _).1 (by decide +kernel), by
+      intro e' h1 h2
+      rw [← viableB_iff]
+      have : e' = 5 ∨ e' = 6 ∨ e' = 7 := by
+        simp only [List.length_cons, List.length_nil] at h2; omega
+      rcases this with rfl | rfl | rfl <;> decide +kernel⟩⟩
+
+/-! ## 11. the header patterns of the supported languages
+
+The hypothesis "the pattern cannot match the empty sequence" holds for every header pattern
+that a language passes to `get_headers` (checked on the generated pattern table by evaluating
+the compiled table, `langB`), so items 1-6 apply to the machine `get_headers` runs `find_all`
+on (token predicates, including `Balanced`). -/
+
+/-- no header pattern of any supported language matches the empty token sequence -/
+theorem gen_header_patterns_not_nullable :
+    ∀ L ∈ Gen.all, ∀ hp ∈ L.2.pats, ¬ Lang hp.expr [] := by
+  have h : ∀ L ∈ Gen.all, ∀ hp ∈ L.2.pats, langB hp.expr [] = false := by decide +kernel
+  intro L hL hp hhp hl
+  have := h L hL hp hhp
+  rw [(langB_iff _ _).2 hl] at this
+  cases this
+
+/-- items 1-5 for the `find_all` call of `get_headers` on a header pattern of a supported
+language: every reported match is non-empty, in range, records exactly the matched tokens, is
+a greedy match of the compiled table over the token predicates, and the matches are ordered and
+disjoint -/
+theorem gen_find_all_greedy {L : String × Language} (hL : L ∈ Gen.all) {hp : HeaderPat}
+    (hhp : hp ∈ L.2.pats) {D : Dfa Pred} (hD : compileTok hp.expr = .ok D) {toks : List Tok}
+    {ms : List (Match Tok)} (h : findAll (dfaMachine D tokAcceptor) toks = .ok ms) :
+    (∀ m ∈ ms, m.s < m.e ∧ m.e ≤ toks.length ∧ m.toks = slice toks m.s m.e ∧
+      GreedyAt (dfaMachine D tokAcceptor) toks m.s m.e) ∧
+    ms.Pairwise (fun m m' => m.e ≤ m'.s) := by
+  have hD' : nfaToDfa (compile hp.expr 1) id = some D := by
+    unfold compileTok at hD
+    split at hD
+    · rename_i D0 h0; cases hD; exact h0
+    · cases hD
+  have hnn : (dfaMachine D tokAcceptor).acc (dfaMachine D tokAcceptor).init = false :=
+    isAcc_start_false isOrder_id hD' (gen_header_patterns_not_nullable L hL hp hhp)
+  have hds := dfaMachine_deadStuck (β := Tok) D tokAcceptor
+  refine ⟨fun m hm => ?_, ordered_disjoint hnn hds h⟩
+  have hg := greedy hnn hds h m hm
+  exact ⟨hg.1, hg.2.1, records hnn hds h m hm, hg⟩
+
+/-- non-vacuity: there are languages, each has header patterns, and each of them compiles -/
+example : Gen.all ≠ [] ∧ ∀ L ∈ Gen.all, L.2.pats ≠ [] ∧ ∀ hp ∈ L.2.pats,
+    (match compileTok hp.expr with | .ok _ => true | .error _ => false) = true := by
+  decide +kernel
 
 end CL.C14
